@@ -102,7 +102,7 @@ def native_accuracy(n, kind, scale, root, dtname, cfgname, seed, eps_ratio=None)
     return None
 
 
-def native_guard(n, cond_exp, dtname, root, seed):
+def native_guard(n, cond_exp, dtname, root, seed, tol=1e-8):
     """the higher-order solver must raise rather than return a result whose residual |A_ridge X^p - I|_inf exceeds its guard (0.1)"""
     import torch
     from fractions import Fraction
@@ -117,7 +117,7 @@ def native_guard(n, cond_exp, dtname, root, seed):
     eps = 10.0 ** (-cond_exp - 2)
     r = Fraction(root)
     try:
-        X = M.matrix_inverse_root(A, r, root_inv_config=CoupledHigherOrderConfig(max_iterations=100, tolerance=1e-8), epsilon=eps)
+        X = M.matrix_inverse_root(A, r, root_inv_config=CoupledHigherOrderConfig(max_iterations=100, tolerance=tol), epsilon=eps)
     except ArithmeticError:
         return None
     except Exception as e:
@@ -151,8 +151,9 @@ def bounded(tier, seed):
     # residual guard of the higher-order solver on ill-conditioned input
     for n, ce, dtn, root in itertools.product((4, 8, 16), (4, 6, 8, 10), ("f32", "f64"), (2, 4)):
         for k in range(1 if tier == "quick" else 4):
-            bad = native_guard(n, ce, dtn, root, seed * 10 + k)
-            evals += 1
+            # tolerances the iteration can and cannot reach in float32: a run that reports CONVERGED must still pass the residual guard
+            bad = native_guard(n, ce, dtn, root, seed * 10 + k) or native_guard(n, ce, dtn, root, seed * 10 + k, tol=1e-3) or native_guard(n, ce, dtn, root, seed * 10 + k, tol=1e-5)
+            evals += 3
             distinct.add(("guard", n, ce, dtn, root, k))
             if bad and len(viol) < 5:
                 viol.append(dict(ob=f"bounded/higher-order-guard[{n},1e{ce},{dtn},{root}]", func="_matrix_inverse_root_higher_order", input=dict(n=n, cond_exp=ce, dtype=dtn, root=root), text=bad, detail=bad,
@@ -192,14 +193,14 @@ def replay_file(doc):
         bad = native_accuracy(rp["n"], rp["spectrum"], rp["scale"], Fraction(*rp["root"]), rp["dt"], rp["cfg"], rp["seed"], eps_ratio=rp.get("ratio"))
         return bool(bad), f"{rp}: {bad}"
     if rp.get("kind") == "guard":
-        bad = native_guard(rp["n"], rp["ce"], rp["dt"], rp["root"], rp["seed"])
+        bad = native_guard(rp["n"], rp["ce"], rp["dt"], rp["root"], rp["seed"]) or native_guard(rp["n"], rp["ce"], rp["dt"], rp["root"], rp["seed"], tol=1e-3) or native_guard(rp["n"], rp["ce"], rp["dt"], rp["root"], rp["seed"], tol=1e-5)
         return bool(bad), f"{rp}: {bad}"
     if rp.get("kind") in ("dispatch", "newton", "higher", "eigen"):
         import itertools
         if rp.get("kind") == "higher":
             for n, ce, dtn, root in itertools.product((4, 8, 16), (6, 8, 10), ("f32",), (2, 4)):
                 for k in range(3):
-                    bad = native_guard(n, ce, dtn, root, k)
+                    bad = native_guard(n, ce, dtn, root, k) or native_guard(n, ce, dtn, root, k, tol=1e-3) or native_guard(n, ce, dtn, root, k, tol=1e-5)
                     if bad:
                         return True, f"n={n} cond=1e{ce} {dtn} root={root}: {bad}"
         for n, kind, root, dtn, cfgn in itertools.product((1, 3, 8), ("random", "graded", "rankdef"), (Fraction(2), Fraction(4, 3)), ("f32", "f64"), ("eigen", "stab", "newton", "higher")):
